@@ -56,6 +56,22 @@ CLAIMS["C18"] = dict(
     note="Trusted: Coq kernel + VM; Model/Netlink.v; Spec/Uapi.v; live-socket observations (skipped and recorded when netlink is unavailable). PARTIAL: that the kernel stamps senders' port ids and that atomic.AddUint32 is atomic are runtime facts; the Receive decision logic is modelled (not driven with injected sender addresses). No axioms.",
     technique="Coq proofs of the framing codec + live-socket correspondence", design="6 C18")
 
+RULE_NOTE = ("Trusted: Coq kernel + VM; hand-written models Model/RuleEncode.v, RuleDecode.v, Mask.v, Flags.v, FilterRe.v (tied to rule/ by the correspondence: generated rules go through the real flags.Parse, rule.Build and rule.ToCommandLine and the model must agree); "
+             "Spec/UapiRule.v (UAPI numbers by name and the fixed-offset reader of struct audit_rule_data, hand-written, cross-checked against /usr/include/linux/audit.h while writing); the generator as oracle for text spellings of numbers; os.Stat/GOARCH/user database as oracles. No axioms.")
+CLAIMS.update({
+    "C06": dict(text="Proof: C06_wire_exact (for every well-formed rule data the fixed-offset UAPI reader recovers list, action, count, mask, the triples in order with zero fill, buflen and the strings back to back), C06_tables_are_uapi and C06_layout (generated tables/offsets equal the UAPI constants by name), C06_mask_exact / C06_mask_range (exactly the requested bits). "
+                     "The independent checker chk_C06 decodes the bytes of the real Build for every generated rule and compares them with what the rule asks for in UAPI numbers.",
+                note=RULE_NOTE + " PARTIAL: addFilter's per-field value parsers (strconv spellings, errno and message type names) are exercised by correspondence, not proved.", technique="Coq proof of the wire codec against a UAPI reader + generated-table obligations + correspondence", design="6 C06"),
+    "C07": dict(text="Partial proof: C07_wire_roundtrip_partial (decode of encode is the identity on header and string buffer, all well-formed rule data). The text layer (ToCommandLine, flags.Parse) is not modelled: the full chain bytes -> text -> Parse -> Build -> bytes -> text is run on the implementation for every generated in-domain rule and must reproduce bytes and text exactly. Seven defects of the pinned tree in this chain were repaired (fix commits).",
+                note=RULE_NOTE + " PARTIAL: no theorem for the text layer; decided per generated rule on the implementation.", technique="Coq proof (wire layer) + exhaustive-in-structure round-trip run on the implementation", design="6 C07"),
+    "C13": dict(text="Proof: C13_decode_total (for every byte slice the decoder model, with every slice expression, array index and allocation explicit, never panics), C13_success_valid (success implies field count <= 64 and the buffer inside the slice, so allocations are bounded by 64 whatever the input claims), C13_mask_total (every syscall number is set or rejected). "
+                     "The harness replaces each header word of valid rules by boundary values, truncates, and feeds extreme Rule values and arbitrary lines; panics and allocations above 64 MiB are violations. Three panics of the pinned tree were repaired.",
+                note=RULE_NOTE + " PARTIAL: Build's value parsers, shellquote and flag internals are exercised, not modelled, for panics.", technique="Coq totality proof of the decoder/mask model + boundary-value correspondence", design="6 C13"),
+    "C14": dict(text="Proof: C14_tokens_read_as_items (for every line of flags with arbitrary values the flag package's reading equals the item-by-item reading: nothing skipped), C14_stray_rejected, C14_filter_complete / C14_compare_complete (field, operator, value are the complete text around the operator), C14_exclusive, C14_patterns_pinned (the modelled patterns are the compiled ones). "
+                     "Every generated line's returned rule is compared with both readings. Stray-word, unanchored-pattern and repeated-flag defects of the pinned tree were repaired.",
+                note=RULE_NOTE + " shellquote.Split stays outside the model (checked per case).", technique="Coq refinement proof (token reading = declarative reading) + scanner soundness + correspondence", design="6 C14"),
+})
+
 NOT_YET = {}
 
 def main():
